@@ -39,6 +39,9 @@ def wrap_scenario(r, wraps, main):
         c = r.random()
         d = main if c < 0.97 else r.choice(others)
         es = [] if r.random() < 0.03 else [e]
+        if d == main and es and (sent_main % 65535 >= 65529 or sent_main % 65535 <= 3):
+            # an EMPTY send in every state around the wrap (next id 0xFFFA .. 0xFFFF, 1 .. 4): it consumes nothing
+            events.append((t, (1, [20, [], main])))
         if d == main and es:
             sent_main += 1
         if r.random() < 0.3:
@@ -190,7 +193,7 @@ def notify_overlapping(r, rounds):
 def run(ctx):
     r = ctx.rng
     quick = ctx.tier == "quick"
-    ctx.rule = ("interleavings of send_sd to the multicast group and 4 unicast peers with ~10% empty sends, including one run that walks one destination across the "
+    ctx.rule = ("interleavings of send_sd to the multicast group and 4 unicast peers with ~10% empty sends (and an empty send in every state within six ids of a wrap), including one run that walks one destination across the "
                 "received SD messages that reveal peer reboots interleaved with the sends (what is received must not disturb the ids sent), the 0xFFFF wrap-around and then contacts new destinations for the first time (quick: one wrap = 65535+ sends; thorough: the complete 2 x 65535 cycle, multicast and unicast) by issuing the sends, decoding every "
                 "transmitted datagram; the same for SimpleEventgroup._notify_single with two subscribers across a wrap; several notification bursts of two eventgroups in flight at once; assign_outgoing compared with the model over long "
                 "destination sequences; implementation trace judged by check_C08; non-trivial = distinct scenario")
